@@ -13,11 +13,11 @@ H = []
 
 def h(name, file, module, props, tier="quick", timeout_s=600, mem_gb=8, weight=1, stubbing=False,
       kani_args=(), functions=(), bounds="", obligation="", stubs=(), panic_props=None, derived_loops=(),
-      crate="profirust"):
+      crate="profirust", hang_test=None):
     e = dict(name=name, file=file, module=module, props=list(props), tier=tier, timeout_s=timeout_s,
              mem_gb=mem_gb, weight=weight, stubbing=stubbing, kani_args=list(kani_args),
              functions=list(functions), bounds=bounds, obligation=obligation, stubs=list(stubs),
-             derived_loops=list(derived_loops), crate=crate)
+             derived_loops=list(derived_loops), crate=crate, hang_test=hang_test)
     if panic_props is not None:
         e["panic_props"] = list(panic_props)
     H.append(e)
@@ -45,7 +45,7 @@ h("c09_data_roundtrip_content_q", "fdl_telegram.rs", TG, ["C09"], timeout_s=600,
 h("c09_data_roundtrip_content_t", "fdl_telegram.rs", TG, ["C09"], tier="thorough", timeout_s=3000, mem_gb=12, weight=2, functions=CODEC,
   bounds="payload 0..=64 bytes fully symbolic; otherwise as _q; unwind 79", obligation="as c09_data_roundtrip_content_q")
 h("c09_data_roundtrip_all_lengths_t", "fdl_telegram.rs", TG, ["C09"], tier="thorough", timeout_s=3600, mem_gb=16, weight=3, functions=CODEC,
-  bounds="every payload length 0..=246-#SAPs (LE <= 249) with one symbolic fill byte; unwind 260", obligation="wire bytes == reference frame, round trip, for all lengths up to the frame limit")
+  bounds="every payload length 0..=246-#SAPs (LE <= 249) with one symbolic fill byte; unwind 160", obligation="wire bytes == reference frame, round trip, for all lengths up to the frame limit")
 
 # ---- C10 -------------------------------------------------------------------------------------
 DEC = ["Telegram::deserialize", "DataTelegram::deserialize", "TokenTelegram::deserialize", "FunctionCode::from_byte",
@@ -54,9 +54,9 @@ h("c10_decoder_total_q", "fdl_telegram.rs", TG, ["C10"], panic_props=["C10", "C0
   bounds="every byte string of length 0..=32; unwind 34",
   obligation="no panic; Ok((t,n)) => 1<=n<=len, n==t.telegram_len(), payload inside the consumed frame; None => input shorter than the announced frame")
 h("c10_decoder_total_t", "fdl_telegram.rs", TG, ["C10"], panic_props=["C10", "C05"], tier="thorough", timeout_s=3000, mem_gb=12, weight=2, functions=DEC,
-  bounds="every byte string of length 0..=262 (the largest frame is 255 bytes); unwind 264", obligation="as c10_decoder_total_q")
+  bounds="every byte string of length 0..=262 (the largest frame is 255 bytes); unwind 164", obligation="as c10_decoder_total_q")
 h("c10_decoder_accept_q", "fdl_telegram.rs", TG, ["C10"], timeout_s=600, functions=DEC,
-  bounds="every byte string of length 0..=24; unwind 26",
+  bounds="every byte string of length 0..=24; unwind 16",
   obligation="Ok(Data) => SD in {SD1,SD2,SD3}; SD2 => LE==LEr>=3 and repeated SD2; FCS == sum(DA..DU); ED; decoded addresses/SAP presence == address octets")
 h("c10_decoder_accept_t", "fdl_telegram.rs", TG, ["C10"], tier="thorough", timeout_s=3000, mem_gb=12, weight=2, functions=DEC,
   bounds="every byte string of length 0..=80; unwind 82", obligation="as c10_decoder_accept_q")
@@ -123,11 +123,14 @@ MV = "dp::master::verif"
 MASF = ["<DpMaster as FdlApplication>::{transmit_telegram,receive_reply,handle_timeout}", "DpMaster::increment_cycle_state",
         "PeripheralSet::{get_at_index_mut,get_next_index}", "Peripheral::{transmit_telegram,receive_reply}"]
 MAS_OBL = "termination of the master's turn; per slot: untouched | declined | sent one request; at most one request; request from the first slot at/after the cycle index that has something to send, nobody passed over, slots before the index not served again; cycle index stays at the sender; 'cycle completed' exactly when everybody remaining declined, then index 0, not reported twice; Offline transitions == reported events (none lost, none invented, right handle); global control due => reference broadcast frame, cycle untouched; Stop => nothing; Inv_DP preserved"
+h("c14_master_empty_terminates", "dp_master.rs", MV, ["C14"], panic_props=["C14", "C05"], timeout_s=600, functions=MASF, derived_loops=[""],
+  bounds="DP master without any peripheral, any operating/cycle state, high-priority-only turn (global control never due); slot loop bound derived: <= 2 passes; unwind 4",
+  obligation="the turn ends (no hang), nothing is sent, the cycle restarts at slot 0", hang_test="hang_c14_master_empty")
 h("c14_master_transmit_0slots", "dp_master.rs", MV, ["C14"], panic_props=["C14", "C05"], timeout_s=600, functions=MASF, derived_loops=[""],
-  bounds="DP master without any peripheral; any operating state, cycle state, global-control time, priority flag; every loop bound derived: <= 24 iterations (frame compare), the slot loop ends after slots+2 passes; unwind 26",
+  bounds="DP master without any peripheral; any operating state, cycle state, global-control time, priority flag; every loop bound derived: <= 14 iterations (checksum over the largest frame), the slot loop ends after slots+2 passes; unwind 16",
   obligation=MAS_OBL)
 h("c14_master_transmit_2slots_q", "dp_master.rs", MV, ["C14"], panic_props=["C14", "C05"], timeout_s=2400, mem_gb=14, weight=4, functions=MASF, derived_loops=[""],
-  bounds="2 storage slots with symbolic occupancy (sparse included), each occupied slot an arbitrary peripheral under Inv_DP (1-byte images, user prm/config present or not); any master state (Stop/Clear/Operate, cycle index or CycleCompleted, last global control); unwind 26",
+  bounds="2 storage slots with symbolic occupancy (sparse included), each occupied slot an arbitrary peripheral under Inv_DP (1-byte images, user prm/config present or not); any master state (Stop/Clear/Operate, cycle index or CycleCompleted, last global control); unwind 16",
   obligation=MAS_OBL)
 h("c14_master_transmit_3slots_t", "dp_master.rs", MV, ["C14"], panic_props=["C14", "C05"], tier="thorough", timeout_s=7200, mem_gb=20, weight=6, functions=MASF, derived_loops=[""],
   bounds="3 storage slots; otherwise as _2slots_q", obligation=MAS_OBL)
@@ -149,6 +152,26 @@ AV = "fdl::active::verif"
 h("c12_gap_lemma", "fdl_active.rs", AV, ["C12"], panic_props=["C12", "C05"], timeout_s=600, functions=["FdlActiveStation::next_gap_poll", "TokenRing::next_station"],
   bounds="ALL (TS, HSA) with TS < HSA <= 126, ALL ring views (any LAS => any NS 0..125 incl. NS=TS, TS-1, HSA-1, NS >= HSA), ALL last-polled addresses < HSA",
   obligation="result is Waiting{0} or DoPoll{a}: a != TS, a < HSA, a strictly inside the cyclic interval (TS, NS), a == cyclic successor of the last polled address; the sweep ends only when the next address is outside the GAP")
+
+L2F = ["FdlActiveStation::{poll,poll_inner,check_for_ongoing_transmision,check_for_bus_activity,wait_synchronization_pause,mark_tx,mark_rx,mark_bus_activity,check_slot_expired,handle_lost_token}",
+       "Parameters::{bits_to_time,slot_time,token_lost_timeout}", "Baudrate::bits_to_time", "State::transition_*", "TokenRing::{claim_token,ready_for_ring,next_station,previous_station}",
+       "TelegramTx::{send_token_telegram,send_fdl_status_request,send_fdl_status_response}"]
+L2STUBS = ["TokenRing::witness_token_pass / set_next_station / remove_station -> call recorder + arbitrary new ring view constrained by the L1 lemmas (fdl_token_ring.rs)",
+           "log::__private_api::loc -> static location", "PHY = telegram-level harness PHY (TPhy): receive helpers modelled by their contract (proved against the real helpers by the C16 harnesses)"]
+L2BOUNDS = "ONE poll() from ANY station state of this variant under Inv_FDL: address/HSA/gap factor symbolic, ring view (LAS state, NS, PS) symbolic, GAP state, timestamps in [0, 2^40) us, `now` symbolic, PHY busy flag symbolic, receive buffer = 0..2 arbitrary telegrams (token/SC/data, payload <= 3 B) + tail (empty/incomplete/garbage); baud 500 kbit/s, Tslot 300 bit, TTR 32436 bit fixed"
+def l2(name, fn, props, obligation, log_variant=True, timeout_s=1200, weight=2, unwind=5, extra_panic=()):
+    h(name, "fdl_active.rs", AV, props, panic_props=["C05"] + list(extra_panic), timeout_s=timeout_s, mem_gb=10, weight=weight, stubbing=True, functions=L2F + fn, stubs=L2STUBS,
+      bounds=L2BOUNDS + "; unwind %d" % unwind, obligation=obligation)
+    if log_variant:
+        h(name + "_log", "fdl_active.rs", AV, props, panic_props=["C05"] + list(extra_panic), timeout_s=timeout_s, mem_gb=10, weight=weight, stubbing=True, functions=L2F + fn, stubs=L2STUBS,
+          bounds=L2BOUNDS + "; log::set_max_level(Trace): every log argument expression evaluated; unwind %d" % unwind, obligation=obligation + " (logging enabled)")
+
+l2("l2_listen_token", ["FdlActiveStation::do_listen_token", "do_claim_token"], ["C01", "C02", "C05", "C06", "C11", "C12"],
+   "universal C01 obligations (one tx per poll, busy => nothing, 33-bit pause in exact arithmetic, nothing sent when new bytes became visible, own transmission accounted, RX accounted); claim exactly after TTO of silence (token to self, LAS valid, full GAP scan scheduled); never token holder otherwise; status reply truthful (ready only with valid LAS and only to PS) and only after the pause; status request latched iff addressed to TS and last in buffer; exactly the witnessed token passes are reported to the ring view; two own-address sources => Offline; Inv_FDL preserved")
+l2("l2_active_idle", ["FdlActiveStation::{do_active_idle,handle_telegram}", "do_claim_token"], ["C01", "C02", "C05", "C06", "C11", "C12"],
+   "universal C01 obligations; claim after TTO; 'in ring' status reply; token accepted iff last buffered telegram is a token to TS from PS, or from a stranger whose first offer was remembered; stranger's first offer remembered; witnessed passes reported in order; two consecutive own-address tokens => ListenToken; Inv_FDL preserved")
+l2("l2_check_token_pass", ["FdlActiveStation::{do_check_token_pass,do_pass_token,handle_telegram}"], ["C01", "C02", "C05", "C06", "C11"],
+   "universal C01 obligations; nothing heard for a slot time: repeat to the SAME successor with attempt+1, third expiry: remove exactly the silent successor, token to the new NS (or keep it when alone), never remove before; new bytes arriving or anything heard: no repetition, no removal, continue as idle ring member (acceptance rules); Inv_FDL preserved")
 
 PROPERTIES = {
     "C09": {
@@ -177,6 +200,45 @@ PROPERTIES = {
                         "'accepted reply' = a reply that changed observable state (bring-up state, event, reported diagnostics, input image)",
                         "several peripherals: per-peripheral relation plus C14's routing lemma (a callback touches only the addressed slot)"],
         "outside": ["histories are covered by induction over Inv_DP, not enumerated; triples of requests beyond the Offline case"],
+    },
+    "C01": {
+        "claim": "Per-station level (DESIGN §4 C01, §5): for EVERY station state of each of the eight state variants under Inv_FDL, every `now`, every PHY busy flag and every receive buffer content within the bounds, ONE real poll() starts at most one transmission; none while a transmission is (believed to be) in progress; none in a poll in which newly received bytes became visible; every transmission starts more than 33 bit times after the station's last recorded bus activity (exact arithmetic up to 1 us); the own transmission is accounted as bus activity to its last bit; a transmission only happens in a permitted role for the state (token holder; repetition of the own pass after a silent slot; status reply to the pending requester; claim after TTO of silence) with bytes of the matching kind. Pure lemmas for all 11 baud rates: bit/time conversion error < 1 us and monotone; token-lost time-outs of distinct addresses are staggered by >= 2 slot times per address step. The ring-level statement (no two stations transmit at once) is NOT decided: it composes these obligations with single-token-ness (paper argument).",
+        "assumptions": ["per-station obligations only; ring-level collision freedom rests on the single-token argument of DESIGN §5",
+                        "step harnesses: baud 500 kbit/s, Tslot 300 bit, TTR 32436 bit fixed (time lemmas cover all baud rates separately); timestamps in [0, 2^40) us",
+                        "TokenRing mutators abstracted by recorded calls + arbitrary new ring view (L1 lemmas); PHY receive helpers by their contract (C16)"],
+        "outside": ["global (multi-station) collision freedom and its timing; cold-start claim race and stale PHY buffers (excluded by the property)"],
+    },
+    "C02": {
+        "claim": "LAS algebra + per-station level: (L1) the real bitvec TokenRing methods agree with a 128-bit reference model on bounded LAS populations, and the model satisfies the ring lemmas (a pass removes exactly the jumped-over addresses and adds the sender; three rotations of a 2..5 station ring yield a valid LAS equal to the ring with NS/PS the cyclic neighbours; stability under in-order passes); (L2) every station state reports exactly the witnessed token passes, in order, to its ring view, answers 'ready' only with a valid view and only to PS, adopts a ready GAP responder as NS, and after claiming regards its view as valid and scans the full GAP. The multi-station convergence bound and joint agreement are NOT decided.",
+        "assumptions": ["convergence time bound and agreement across stations are paper arguments (DESIGN §5.4)", "L1 equivalence bounded by LAS population (see harness bounds)"],
+        "outside": ["multi-station convergence and its bound"],
+    },
+    "C05": {
+        "claim": "Bounded: no panic (incl. debug assertions, overflow checks, unwrap/unreachable, slice/index) and complete unwinding (termination) in EVERY harness of this framework: one poll() from every FDL station state variant under Inv_FDL with arbitrary buffered telegrams, time and PHY state - with logging off and with log::set_max_level(Trace) so that every log argument expression is evaluated; with NdApp applications, the real DpMaster (0..2 slots), LiveList and DpScanner callbacks from arbitrary states; the decoder on every byte string <= 32/262 bytes; the receive helpers on arbitrary chunked byte streams; the diagnostics iterator on every stored string. Inv_FDL/Inv_DP are proved inductive by the same harnesses, so the claim covers histories of any length within the per-step bounds.",
+        "assumptions": ["FDL-admissible replies reach the DP layer only (proved as C15 admission)", "the application list does not change while online (documented restriction)",
+                        "set_passive()/enter_stop()/enter_clear() end in todo!() by design (documented as unsupported) and are not called",
+                        "log formatting itself (core::fmt inside a real logger) is trusted; the crate's log ARGUMENT expressions are evaluated"],
+        "outside": ["formatting inside a real logger; i64 time wrap-around beyond 2^40 us; API misuse the docs forbid"],
+    },
+    "C06": {
+        "claim": "Per-station mechanisms of recovery, each for all states/inputs of one poll: (a) claim exactly after the token-lost time-out of silence from ListenToken/ActiveIdle; (b) pass supervision: repetition twice, then removal of exactly the silent successor (C11); (c) back-off: while awaiting a data/status reply or scanning after a claim, any telegram that is not the awaited reply sends the station to ActiveIdle (no lingering second token holder); (d) collision rule: own address as source twice => ActiveIdle->ListenToken, ListenToken->Offline; (e) undecodable input is discarded and the next telegram decodes (C16); every state has a timed exit under silence. The ring-level recovery bound and re-admission are NOT decided.",
+        "assumptions": ["recovery bound and re-admission as temporal statements are paper arguments (DESIGN §5)"],
+        "outside": ["multi-station recovery time bound"],
+    },
+    "C11": {
+        "claim": "Bounded one-step lemmas from every state under Inv_FDL: a ring member accepts a token addressed to it iff it is the last buffered telegram and comes from PS or from a stranger whose first offer was remembered (then remembered strangers are accepted on the second offer); a listening station never becomes token holder except by claiming after its time-out; after a pass the station listens for one slot time, repeats the pass to the SAME successor at most twice, on the third expiry removes exactly that successor and passes to the new NS (keeps the token when alone); while bytes are arriving or after anything was heard it neither repeats nor removes.",
+        "assumptions": ["one poll per lemma; 0..2 buffered telegrams per poll"],
+        "outside": ["sequences longer than one poll are covered by induction over Inv_FDL, not enumerated"],
+    },
+    "C13": {
+        "claim": "Hold-time gate, one-step from every UseToken/AwaitDataResponse state: on the first poll of a token visit the hold time ends at (previous token receipt + TTR), reduced by one GAP poll when one is pending; applications are offered low-priority cycles only while now < end of hold time, otherwise at most one high-priority cycle per visit, then the token is passed; after a reply or time-out the 'one guaranteed cycle' is not repeated. The ring-level rotation bound and starvation freedom are NOT decided (they follow from the gate + C11 + single token, on paper).",
+        "assumptions": ["TTR fixed to 32436 bit in the step harness; NdApp applications with arbitrary appetite"],
+        "outside": ["ring-level rotation bound"],
+    },
+    "C15": {
+        "claim": "One-step from every UseToken/AwaitDataResponse state with 0..3 nondeterministic applications: transmit_telegram is offered only in UseToken (or directly after a delivered time-out), to apps[next_application], each application at most once per poll, a decline advances the index by one modulo n, the token is passed when the index returns to the first application or the hold time is over; receive_reply/handle_timeout are delivered only in AwaitDataResponse, only to the application that sent, at most one of them; a delivered reply is SC or a response telegram whose source is the awaited address and whose destination is this station - anything else sends the station to ActiveIdle without a callback; expects_reply per service (C09).",
+        "assumptions": ["applications do not change while online"],
+        "outside": ["rings of several stations (the admission predicate is per station)"],
     },
     "C12": {
         "claim": "Bounded/one-step: the GAP address generator is correct for ALL (TS, NS, HSA, last polled address) - never TS itself, never at or beyond NS, below HSA, no address skipped (pure lemma, no bound); one poll per token visit, the waiting counter, the post-claim full scan, evaluation of status replies (ready master becomes NS and gets the next token) and the truthfulness of this station's own status replies are one-step lemmas over poll() from symbolic states.",
